@@ -47,5 +47,67 @@ fn run(line: &str) -> String {
         (Some(a), Some(b)) => hdrfmt::compare(a, b),
         _ => "-".to_string(),
     };
-    format!("{} || {} || hdrs={} || {}", hl, sl, cmp, hdrlax::run(entry, &data))
+    // ---- audit1-c04 ----
+    // the slots of the struct Ipv6Extensions one by one (strict and lax struct family),
+    // appended behind " ## " (stripped by tools/props/c04.py before the older fields are parsed)
+    let lh = if entry == "eth" {
+        LaxPacketHeaders::from_ethernet(&data).ok()
+    } else if entry == "ip" {
+        LaxPacketHeaders::from_ip(&data).ok()
+    } else if let Some(et) = entry.strip_prefix("et:") {
+        Some(LaxPacketHeaders::from_ether_type(EtherType(et.parse().unwrap()), &data))
+    } else {
+        None
+    };
+    let slots = format!(
+        "slots={} laxslots={}",
+        slots_of(h.as_ref().ok().and_then(|p| p.net.as_ref())),
+        slots_of(lh.as_ref().and_then(|p| p.net.as_ref()))
+    );
+    return format!(
+        "{} || {} || hdrs={} || {} ## {}",
+        hl,
+        sl,
+        cmp,
+        hdrlax::run(entry, &data),
+        slots
+    );
+    // ---- end audit1-c04 ----
 }
+
+// ---- audit1-c04 ----
+/// `hbh:<len>/<next header>,dst:..,rt:..,fdst:..,frag:..,auth:..` of an IPv6 network layer
+/// ("-" for an empty slot, for no or another network layer)
+fn slots_of(net: Option<&NetHeaders>) -> String {
+    let x = match net {
+        Some(NetHeaders::Ipv6(_, x)) => x,
+        _ => return "-".to_string(),
+    };
+    let raw = |o: &Option<Ipv6RawExtHeader>| match o {
+        Some(h) => format!("{}/{}", h.header_len(), h.next_header.0),
+        None => "-".to_string(),
+    };
+    let (rt, fdst) = match &x.routing {
+        Some(r) => (
+            format!("{}/{}", r.routing.header_len(), r.routing.next_header.0),
+            raw(&r.final_destination_options),
+        ),
+        None => ("-".to_string(), "-".to_string()),
+    };
+    format!(
+        "hbh:{},dst:{},rt:{},fdst:{},frag:{},auth:{}",
+        raw(&x.hop_by_hop_options),
+        raw(&x.destination_options),
+        rt,
+        fdst,
+        match &x.fragment {
+            Some(f) => format!("{}/{}", Ipv6FragmentHeader::LEN, f.next_header.0),
+            None => "-".to_string(),
+        },
+        match &x.auth {
+            Some(a) => format!("{}/{}", a.header_len(), a.next_header.0),
+            None => "-".to_string(),
+        }
+    )
+}
+// ---- end audit1-c04 ----
